@@ -69,8 +69,12 @@ def fill(chk, NA):
         "Result must be absolute, sorted, unique, equal to a reference computed from the tree specification, and invariant under argument reversal and reversed listing order.",
         "Bound = the skeleton and the argument sets; presence/setting bits are enumerated by solver forks, the size/limit order relations are decided symbolically; replay materialises the tree with real sizes. gitignore handling is C18's subject (no .gitignore in this tree).",
         "symbolic tree (bits + Int sizes) through the real resolver on a real file system vs reference walk of the specification", "DESIGN.md §3 C17", engine="symlen+tmp-tree")
-    pending = "check not built yet in this revision (work in progress; see DESIGN.md §3 for the plan)"
-    for p in ["C18"]:
-        NA[p] = pending
+    chk("C18", "translation_validation",
+        "The strings the real traversal hands to pathspec are obtained by tracing _walk_directory on a marker tree (regenerated every run) and turned into templates over symbolic path components; pathspec's compiled "
+        "regexes for each .gitignore of a bounded grammar are translated into z3 regexes; z3 searches components on which 'some traced call says ignored' differs from gitignore semantics on the path relative to the "
+        "file's directory. Every model is replayed against real `git check-ignore` and FileResolver.resolve; the reference formula itself is checked against git on every replayed model.",
+        "Bound: two directory levels, components [abx]{1,3}, file [abx]{1,3}.md, one- and two-line .gitignore files from the listed grammar, at the root or one level down. pathspec's regexes are trusted only as far as "
+        "the git replay confirms them. Core excludes files, global excludes and .git/info/exclude are outside the claim.",
+        "z3 regex-inclusion queries on trace-derived templates + git as replay oracle", "DESIGN.md §3 C18", engine="re2smt+git")
     NA["C13"] = ("quantifies over thread interleavings and process histories of CPython interpreter state; no available solver engine models a scheduler or a symbolic Python heap, "
                  "and a bounded history with symbolic word lengths would be a concrete test wearing a solver (DESIGN.md §3 C13)")
